@@ -38,8 +38,24 @@ def _strip_not(e):
 
 
 def chain_of(fnode, e):
-    """attribute chain text of e, following single-assignment locals (aliases)."""
-    return chain(resolve_local(fnode, e))
+    """attribute chain text of e, following single-assignment locals (aliases) -- also one bound by a parallel
+    assignment (`old, self.t = self.t, {}`: `old` is the table as it was)."""
+    e = resolve_local(fnode, e)
+    for _ in range(3):
+        if not isinstance(e, ast.Name):
+            break
+        ws = writes_to_name(fnode, e.id)
+        if len(ws) != 1 or not isinstance(ws[0], ast.Assign) or len(ws[0].targets) != 1:
+            break
+        t, v = ws[0].targets[0], ws[0].value
+        if not (isinstance(t, (ast.Tuple, ast.List)) and isinstance(v, (ast.Tuple, ast.List)) and len(t.elts) == len(v.elts)
+                and not any(isinstance(x, ast.Starred) for x in t.elts + v.elts)):
+            break
+        i = next((i for i, x in enumerate(t.elts) if isinstance(x, ast.Name) and x.id == e.id), None)
+        if i is None:
+            break
+        e = resolve_local(fnode, v.elts[i])
+    return chain(e)
 
 
 def is_none_test(fnode, e, chain_text):
@@ -985,6 +1001,40 @@ class Tup(tuple):
     pass
 
 
+class Unk(_Top):
+    """an unknown value *with identity* (the value a local was bound to by a call the interpreter cannot look
+    into, a loop target, ...): as open as TOP in every test, but the same local read twice is the same key"""
+
+    def __init__(self, tag=""):
+        self.tag = tag
+        self.attrs = {}
+
+    def __repr__(self):
+        return "UNK(%s)" % self.tag
+
+
+class Scalar:
+    """a value of a declared plain type (int, bytes, str, ...): never None, but possibly falsy (0, b"", "")"""
+
+    def __init__(self, tag):
+        self.tag = tag
+
+    def __repr__(self):
+        return "<%s>" % self.tag
+
+
+class Seq:
+    """an abstract collection known by one representative element (it may also be empty)"""
+
+    def __init__(self, elem=None, empty=False, mapping=False):
+        self.elem = elem
+        self.empty = empty
+        self.mapping = mapping  # the elements are (key, value) pairs of a dict: iterating it yields the keys
+
+    def __repr__(self):
+        return "<empty seq>" if self.empty else "<seq of %r>" % (self.elem,)
+
+
 class NeedDecision(Exception):
     pass
 
@@ -1000,7 +1050,7 @@ class Cut(Exception):
 
 
 def truthiness(v):
-    if v is TOP:
+    if isinstance(v, (_Top, Scalar, Seq)):
         return None
     if isinstance(v, DictVal):
         return False if v.kind == "empty" else None
@@ -1016,10 +1066,12 @@ def truthiness(v):
 
 def _eq3(a, b):
     """three-valued equality/identity"""
-    if a is TOP or b is TOP:
-        return None
+    if isinstance(a, _Top) or isinstance(b, _Top):
+        return True if (a is b and a is not TOP) else None
     if a is None or b is None:
         return a is b
+    if isinstance(a, (Scalar, Seq)) or isinstance(b, (Scalar, Seq)):
+        return True if a is b else None
     if isinstance(a, (Obj, DictVal, Elem)) or isinstance(b, (Obj, DictVal, Elem)):
         return a is b
     if isinstance(a, Sym) or isinstance(b, Sym):
@@ -1046,6 +1098,7 @@ class _Frame:
         self.depth = depth
         self.ret = None
         self.visits = {}
+        self.at = None  # CFG node being executed
 
 
 class Machine:
@@ -1316,16 +1369,20 @@ class Machine:
     def has_key(self, d, k):
         if d.kind == "empty":
             return False
-        kid = (d.tag, id(k) if isinstance(k, (Obj, Elem, DictVal, _Top)) else repr(k))
+        kid = self.key_id(d, k)
         if k is TOP:
             return self.decide("%s has the key" % d.tag)
         if kid not in self.keys:
             self.keys[kid] = self.decide("%s has the key" % d.tag)
         return self.keys[kid]
 
+    @staticmethod
+    def key_id(d, k):
+        return (d.tag, id(k) if isinstance(k, (Obj, Elem, DictVal, _Top, Scalar, Seq)) else repr(k))
+
     def _set_key(self, d, k, present):
         if k is not TOP:
-            self.keys[(d.tag, id(k) if isinstance(k, (Obj, Elem, DictVal, _Top)) else repr(k))] = present
+            self.keys[self.key_id(d, k)] = present
 
     def _dict_method(self, d, a, argv):
         if a in ("get", "pop", "setdefault") and argv:
@@ -1399,11 +1456,24 @@ class Machine:
             else:
                 self.effect("setitem", stmt_text(t, 40), base, [v])
 
+    def delete_target(self, t, fr):
+        self.effect("delete", stmt_text(t, 40), None, [])
+
+    def iter_elem(self, v):
+        """the value a `for` target is bound to when the iterable evaluated to v"""
+        return TOP
+
+    def as_iterable(self, v):
+        return v
+
+    def loop_enters(self, itv, loop):
+        return self.decide("loop body of `for %s` runs" % stmt_text(loop.target, 30))
+
     def exec_stmt(self, st, fr):
         if isinstance(st, ast.Delete):
             for t in st.targets:
                 if not isinstance(t, ast.Name):
-                    self.effect("delete", stmt_text(t, 40), None, [])
+                    self.delete_target(t, fr)
             return
         if isinstance(st, (ast.Assert, ast.Pass, ast.Global, ast.Nonlocal, ast.FunctionDef, ast.AsyncFunctionDef, ast.ClassDef, ast.Import, ast.ImportFrom, ast.Match, ast.Break, ast.Continue)):
             return
@@ -1433,6 +1503,7 @@ class Machine:
             if self.steps > 5000:
                 raise Cut("step bound")
             node = cfg.nodes[n]
+            fr.at = n
             if node.kind == "exit":
                 return fr.ret
             if node.kind == "rexit":
@@ -1454,10 +1525,10 @@ class Machine:
                     k = fr.visits.get(n, 0)
                     fr.visits[n] = k + 1
                     if k == 0:
-                        self.ev(node.ast.iter, fr)
-                        want = "T" if self.decide("loop body of `for %s` runs" % stmt_text(node.ast.target, 30)) else "F"
+                        itv = self.as_iterable(self.ev(node.ast.iter, fr))
+                        want = "T" if self.loop_enters(itv, node.ast) else "F"
                         if want == "T":
-                            self.assign(node.ast.target, TOP, fr)
+                            self.assign(node.ast.target, self.iter_elem(itv), fr)
                     else:
                         want = "F"
                 elif node.kind == "join" and node.label == "while":
@@ -1507,11 +1578,17 @@ def _as_load(t):
     return t2
 
 
+_GEN_MEMO = {}
+
+
 def _is_generator(fi):
-    return any(isinstance(n, (ast.Yield, ast.YieldFrom)) for n in walk_no_nested(fi.node))
+    k = id(fi.node)
+    if k not in _GEN_MEMO:
+        _GEN_MEMO[k] = (fi.node, any(isinstance(n, (ast.Yield, ast.YieldFrom)) for n in walk_no_nested(fi.node)))
+    return _GEN_MEMO[k][1]
 
 
-def explore(prog, fi, make_env, consts, preds, sinks, skip_methods=(), max_runs=512, record_all=False):
+def explore(prog, fi, make_env, consts, preds, sinks, skip_methods=(), max_runs=512, record_all=False, machine=None):
     """All runs of fi from the environment make_env() builds (a fresh one per run: the
     objects are mutable), one per sequence of answers to the conditions the
     valuation leaves open.  -> [Machine]"""
@@ -1519,7 +1596,7 @@ def explore(prog, fi, make_env, consts, preds, sinks, skip_methods=(), max_runs=
     stack = [[]]
     while stack:
         oracle = stack.pop()
-        m = Machine(prog, oracle, consts, preds, sinks, skip_methods, record_all=record_all)
+        m = (machine or Machine)(prog, oracle, consts, preds, sinks, skip_methods, record_all=record_all)
         try:
             m.run(fi, make_env())
         except NeedDecision:
@@ -1534,3 +1611,600 @@ def explore(prog, fi, make_env, consts, preds, sinks, skip_methods=(), max_runs=
         if len(runs) > max_runs:
             raise AnalysisError("more than %d runs of %s under one valuation" % (max_runs, fi.short))
     return runs
+
+
+# ---------------------------------------------------------------------------
+# timer tables: "an entry that leaves the table takes its timer along"
+#
+# A *timer table* is a dict of self whose entries carry a loop.call_later handle that shutdown
+# cancels (C18.d).  That ownership only protects the timers that are still *in* the table: whatever
+# takes an entry out (pop / del / popitem / replacing the value of a key known to be present) must
+# cancel that entry's handle itself, on every path on which an entry was in fact taken -- unless the
+# code is the fired timer's own callback.  Decided by running the function in the interpreter above
+# with the table *unknown* (every key forks into present / absent, one answer per key and run) and
+# the entries modelled component-wise from what the table is declared / seen to hold: the handle is
+# an object (truthy, never None), a component of a plain type (int, bytes, str) is never None but
+# may be falsy (message ID 0, empty token), an undeclared component is unknown.  So a test that
+# conflates "absent" with "falsy" (`if old_mid:` on a popped (mid, handle)) forks, and the run on
+# which an entry was removed but its handle never cancelled is the counter-example; `is not None`
+# on the same value, `key in table`, `.get()` + `del`, early returns, helpers, comprehensions are
+# all just executions.
+
+
+def _has_top(k, depth=0):
+    if k is TOP:
+        return True
+    if isinstance(k, tuple) and depth < 4:
+        return any(_has_top(x, depth + 1) for x in k)
+    return False
+
+
+class Quiescent(Exception):
+    """nothing that concerns the tracked table can happen any more on this run"""
+
+
+class TimerTable(DictVal):
+    def __init__(self, tag, pos, models):
+        DictVal.__init__(self, tag, "unknown")
+        self.pos = pos  # position of the handle inside the entry (None: the entry is the handle)
+        self.models = models  # per component: "handle" | "scalar" | "object" | "top"
+
+
+_PLAIN_TYPES = ("int", "bytes", "str", "float", "bool", "bytearray", "tuple", "frozenset")
+
+
+def _ann_model(t):
+    """model of one component from its annotation expression"""
+    if t is None:
+        return "top"
+    if isinstance(t, ast.Constant):
+        return "top"  # None, or a string annotation we do not parse
+    base = t.value if isinstance(t, ast.Subscript) else t
+    name = (chain(base) or "").split(".")[-1]
+    if name in ("Optional", "Union", "Any", ""):
+        return "top"
+    if name in _PLAIN_TYPES:
+        return "scalar"
+    if name in ("Callable", "Awaitable", "Coroutine") or name.endswith("Handle"):
+        return "object"  # function objects, handles: no __bool__/__len__, always truthy
+    return "scalar"  # an instance of some class: not None; whether it can be falsy is not known
+
+
+def table_models(prog, ci, field, pos):
+    """[model per entry component] of the dict `self.<field>` of class ci, or None when the
+    entry is the handle itself.  Sources, in this order: the annotation of the field
+    (`Dict[K, Tuple[a, b]]`), else the tuples stored into it anywhere in the module (arity;
+    a component some store sets to a literal None is unknown, any other never-None)."""
+    if pos is None:
+        return None
+    ann = None
+    init = ci.methods.get("__init__")
+    for root in ([init.node] if init is not None else []) + [ci.node]:
+        for n in ast.walk(root):
+            if isinstance(n, ast.AnnAssign) and (chain(n.target) in ("self." + field, field)):
+                ann = n.annotation
+                break
+        if ann is not None:
+            break
+    models = None
+    if isinstance(ann, ast.Subscript) and (chain(ann.value) or "").split(".")[-1] in ("Dict", "dict", "MutableMapping", "Mapping", "OrderedDict", "DefaultDict", "defaultdict"):
+        kv = ann.slice.elts if isinstance(ann.slice, ast.Tuple) else []
+        if len(kv) == 2:
+            v = kv[1]
+            if isinstance(v, ast.Subscript) and (chain(v.value) or "").split(".")[-1] in ("Tuple", "tuple"):
+                comps = v.slice.elts if isinstance(v.slice, ast.Tuple) else [v.slice]
+                if not any(isinstance(c, ast.Constant) and c.value is Ellipsis for c in comps):
+                    models = [_ann_model(c) for c in comps]
+    if models is None:
+        arities = set()
+        nones = set()
+        for fi in prog.funcs.values():
+            if fi.module is not ci.module:
+                continue
+            for kind, n in stores_to_any(fi.node, field):
+                v = None
+                if kind == "setitem" and isinstance(n, (ast.Assign, ast.AnnAssign)):
+                    v = n.value
+                elif kind in ("setdefault", "__setitem__") and isinstance(n, ast.Call) and len(n.args) == 2:
+                    v = n.args[1]
+                v = resolve_local(fi.node, v) if v is not None else None
+                if isinstance(v, ast.Tuple) and not any(isinstance(x, ast.Starred) for x in v.elts):
+                    arities.add(len(v.elts))
+                    for i, x in enumerate(v.elts):
+                        x = resolve_local(fi.node, x)
+                        if isinstance(x, ast.Constant) and x.value is None:
+                            nones.add(i)
+        if len(arities) != 1:
+            return False  # cannot tell what an entry looks like
+        models = ["top" if i in nones else "scalar" for i in range(arities.pop())]
+    if not isinstance(pos, int) or not (0 <= pos < len(models)):
+        return False
+    models[pos] = "handle"
+    return models
+
+
+def _cfg_node_parts(node):
+    a = node.ast
+    if a is None:
+        return []
+    if node.kind == "for":
+        return [a.iter, a.target]
+    if node.kind == "with":
+        return [i.context_expr for i in getattr(a, "items", [])]
+    if node.kind in ("test", "stmt", "return", "raise"):
+        return [a]
+    return []
+
+
+_ENTRY_CALLS = ("pop", "popitem", "get", "setdefault", "cancel", "__delitem__", "__setitem__", "__getitem__", "clear", "update")
+
+
+class TimerInfo:
+    """static facts about one timer table of a class: which functions / CFG nodes can concern it"""
+
+    def __init__(self, prog, ci, field, pos, models):
+        self.prog, self.ci, self.field, self.pos, self.models = prog, ci, field, pos, models
+        self.funcs = [f for f in prog.funcs.values() if f.module is ci.module]
+        self._aliases = {}
+        base = {}
+        for f in self.funcs:
+            base[f.qn] = any(self._mentions(f, n) for n in walk_with_lambdas(f.node))
+        self.calls = {}
+        for f in self.funcs:
+            cs = set()
+            for c in (n for n in walk_with_lambdas(f.node) if isinstance(n, ast.Call)):
+                t, _ = resolve_callee(prog, f, c)
+                if t is not None:
+                    cs.add(t.qn)
+            self.calls[f.qn] = cs
+        rel = {q for q, v in base.items() if v}
+        changed = True
+        while changed:
+            changed = False
+            for f in self.funcs:
+                if f.qn not in rel and self.calls[f.qn] & rel:
+                    rel.add(f.qn)
+                    changed = True
+        self.relevant_funcs = rel
+        self.skip_methods = {name for name, m in self._all_methods().items() if m.qn not in rel}
+        self._rel_nodes = {}
+        self._ahead = {}
+
+    def _all_methods(self):
+        out = {}
+        for q in reversed(self.prog.mro(self.ci.qn)):
+            c = self.prog.classes.get(q)
+            if c is not None:
+                out.update(c.methods)
+        return out
+
+    def aliases(self, f):
+        """locals of f bound to the table (or to something read from it)"""
+        if f.qn not in self._aliases:
+            al = set()
+            for n in walk_with_lambdas(f.node):
+                if isinstance(n, (ast.Assign, ast.AnnAssign, ast.NamedExpr)) and getattr(n, "value", None) is not None:
+                    if any(isinstance(x, ast.Attribute) and x.attr == self.field for x in ast.walk(n.value)):
+                        tg = n.targets if isinstance(n, ast.Assign) else [n.target]
+                        for t in tg:
+                            al |= {x.id for x in ast.walk(t) if isinstance(x, ast.Name)}
+            self._aliases[f.qn] = al
+        return self._aliases[f.qn]
+
+    def _mentions(self, f, n):
+        if isinstance(n, ast.Attribute) and n.attr in (self.field, "cancel"):
+            return True
+        if isinstance(n, ast.Name) and n.id in self.aliases(f):
+            return True
+        return False
+
+    def rel_nodes(self, f):
+        if f.qn not in self._rel_nodes:
+            cfg = cfg_of(f)
+            out = set()
+            for nd in cfg.nodes:
+                for part in _cfg_node_parts(nd):
+                    for n in walk_with_lambdas(part):
+                        if isinstance(n, (ast.FunctionDef, ast.AsyncFunctionDef, ast.ClassDef)):
+                            continue
+                        if self._mentions(f, n):
+                            out.add(nd.id)
+                        elif isinstance(n, ast.Call):
+                            t, _ = resolve_callee(self.prog, f, n)
+                            if t is not None and t.qn in self.relevant_funcs:
+                                out.add(nd.id)
+            self._rel_nodes[f.qn] = out
+        return self._rel_nodes[f.qn]
+
+    def relevant_ahead(self, f, nid):
+        k = (f.qn, nid)
+        if k not in self._ahead:
+            cfg = cfg_of(f)
+            self._ahead[k] = bool(cfg.reach({nid}, include_src=True) & self.rel_nodes(f))
+        return self._ahead[k]
+
+    def interesting_comprehension(self, f, e):
+        for n in ast.walk(e):
+            if isinstance(n, ast.Call):
+                if isinstance(n.func, ast.Attribute) and n.func.attr in _ENTRY_CALLS:
+                    return True
+                t, _ = resolve_callee(self.prog, f, n)
+                if t is not None and t.qn in self.relevant_funcs:
+                    return True
+            elif isinstance(n, ast.Subscript) and isinstance(n.value, ast.Attribute) and n.value.attr == self.field:
+                return True
+        return False
+
+
+class TimerMachine(Machine):
+    """Machine that knows one timer table: entries have identity, what happens to them is recorded."""
+
+    _serial = 0
+
+    def __init__(self, *a, info=None, **kw):
+        Machine.__init__(self, *a, **kw)
+        self.info = info
+        self.frames = []
+        self.entries = {}  # key id -> (entry number, value, handle object)
+        self.handle_of = {}  # id(handle object) -> entry number
+        self.keep = []
+        self.taken = []  # (entry number, how, statement of the analysed function, call node)
+        self.cancelled = set()
+        self.returned = None
+        self._callstack = []
+        self.visited_calls = set()
+
+    # -- entries ---------------------------------------------------------------
+    def _fresh(self, tag):
+        TimerMachine._serial += 1
+        return Unk("%s#%d" % (tag, TimerMachine._serial))
+
+    def entry(self, d, kid):
+        if kid not in self.entries:
+            n = len(self.keep)
+            h = Obj("timer handle %d of %s" % (n, d.tag))
+            self.handle_of[id(h)] = n
+            if d.pos is None:
+                v = h
+            else:
+                comps = []
+                for i, m in enumerate(d.models):
+                    comps.append(h if i == d.pos else Scalar("component %d of an entry of %s" % (i, d.tag)) if m == "scalar"
+                                 else Obj("component %d of an entry of %s" % (i, d.tag)) if m == "object" else self._fresh("component %d" % i))
+                v = Tup(comps)
+            self.keep.append((v, h))
+            self.entries[kid] = (n, v, h)
+        return self.entries[kid]
+
+    def key_id(self, d, k):
+        """a key that contains a value nothing is known about (not even whether it is the same as the last time) is
+        the same key only where it is the same object: `key = (f(x), y)` used twice is one key, `(f(x), y)` spelled
+        out twice may be two"""
+        if _has_top(k):
+            self.keep.append(k)
+            return (d.tag, "opaque", id(k))
+        return Machine.key_id(d, k)
+
+    def has_key(self, d, k):
+        if isinstance(d, TimerTable) and k is not TOP and _has_top(k):
+            kid = self.key_id(d, k)
+            if kid not in self.keys:
+                self.keys[kid] = self.decide("%s has the key" % d.tag)
+            return self.keys[kid]
+        return Machine.has_key(self, d, k)
+
+    def _set_key(self, d, k, present):
+        if k is not TOP:
+            self.keys[self.key_id(d, k)] = present
+
+    def _site(self):
+        fr = self.frames[0] if self.frames else None
+        if fr is None or fr.at is None:
+            return None
+        nd = cfg_of(fr.fi).nodes[fr.at]
+        return nd.ast
+
+    def _take(self, d, kid, how):
+        n, v, h = self.entry(d, kid)
+        self.entries.pop(kid, None)
+        self.taken.append((n, how, self._site(), self._callstack[-1] if self._callstack else None))
+        return v
+
+    # -- the table's operations --------------------------------------------------------
+    def _dict_method(self, d, a, argv):
+        if not isinstance(d, TimerTable):
+            return Machine._dict_method(self, d, a, argv)
+        if self._callstack:
+            self.visited_calls.add(id(self._callstack[-1]))
+        if a in ("get", "pop", "setdefault", "__getitem__", "__delitem__") and argv:
+            default = argv[1] if len(argv) > 1 else None
+            kid = self.key_id(d, argv[0])
+            if self.has_key(d, argv[0]):
+                if a in ("pop", "__delitem__"):
+                    v = self._take(d, kid, "removed")
+                    self._set_key(d, argv[0], False)
+                    return v if a == "pop" else None
+                return self.entry(d, kid)[1]
+            if a in ("__getitem__", "__delitem__") or (a == "pop" and len(argv) < 2):
+                raise Raised("KeyError")
+            if a == "setdefault":
+                self._set_key(d, argv[0], True)
+                self.entries.pop(kid, None)
+            return default
+        if a == "__setitem__" and len(argv) == 2:
+            self._store(d, argv[0], argv[1])
+            return None
+        if a == "__contains__" and argv:
+            return self.has_key(d, argv[0])
+        if a == "popitem" and not argv:
+            if not self.decide("%s has the key" % d.tag):
+                raise Raised("KeyError")
+            k = self._fresh("key")
+            self._set_key(d, k, False)
+            return Tup((k, self._take(d, self.key_id(d, k), "removed")))
+        if a in ("keys", "values", "items", "copy") and not argv:
+            return self._view(d, a)
+        return TOP
+
+    def _view(self, d, kind):
+        """what iterating the table yields, by one representative entry: a key that is present (from here on the
+        run knows it) and the entry stored under it"""
+        if not self.decide("%s has the key" % d.tag):
+            return Seq(empty=True, mapping=(kind == "copy"))
+        k = self._fresh("key")
+        self._set_key(d, k, True)
+        v = self.entry(d, self.key_id(d, k))[1]
+        if kind == "keys":
+            return Seq(k)
+        if kind == "values":
+            return Seq(v)
+        return Seq(Tup((k, v)), mapping=(kind == "copy"))
+
+    def as_iterable(self, v):
+        if isinstance(v, TimerTable):
+            return self._view(v, "keys")
+        if isinstance(v, Seq) and v.mapping:
+            return Seq(empty=True) if v.empty else Seq(v.elem[0])
+        return v
+
+    def _store(self, d, k, v):
+        if k is TOP:
+            return
+        kid = self.key_id(d, k)
+        if self.keys.get(kid) is True:
+            # the run *knows* the key is present (it asked): storing replaces a live entry
+            self._take(d, kid, "replaced")
+        self.entries.pop(kid, None)
+        self._set_key(d, k, True)
+
+    def delete_target(self, t, fr):
+        if isinstance(t, ast.Subscript):
+            base = self.ev(t.value, fr)
+            if isinstance(base, TimerTable):
+                k = self.ev(t.slice, fr)
+                self._callstack.append(t)
+                try:
+                    self._dict_method(base, "__delitem__", [k])
+                finally:
+                    self._callstack.pop()
+                return
+        Machine.delete_target(self, t, fr)
+
+    def assign(self, t, v, fr):
+        if isinstance(t, ast.Name) and v is TOP:
+            v = self._fresh(t.id)
+        if isinstance(t, ast.Attribute):
+            base = self.ev(t.value, fr)
+            if isinstance(base, Unk):
+                base.attrs[t.attr] = v
+                self.effect("setattr", t.attr, base, [v])
+                return
+        if isinstance(t, ast.Subscript):
+            base = self.ev(t.value, fr)
+            if isinstance(base, TimerTable):
+                self._callstack.append(t)
+                self.visited_calls.add(id(t))
+                try:
+                    self._store(base, self.ev(t.slice, fr), v)
+                finally:
+                    self._callstack.pop()
+                return
+        Machine.assign(self, t, v, fr)
+
+    def iter_elem(self, v):
+        return v.elem if isinstance(v, Seq) and not v.empty else TOP
+
+    def loop_enters(self, itv, loop):
+        if isinstance(itv, Seq):
+            return not itv.empty  # what produced the collection and what consumes it are one decision
+        return Machine.loop_enters(self, itv, loop)
+
+    # -- expressions ---------------------------------------------------------------------
+    def ev(self, e, fr):
+        if isinstance(e, ast.Subscript) and isinstance(getattr(e, "ctx", None), ast.Load):
+            base = self.ev(e.value, fr)
+            if isinstance(base, TimerTable):
+                self._callstack.append(e)
+                try:
+                    return self._dict_method(base, "__getitem__", [self.ev(e.slice, fr)])
+                finally:
+                    self._callstack.pop()
+            if isinstance(base, Seq):
+                self.ev(e.slice, fr)
+                if base.empty:
+                    return TOP
+                return base.elem[1] if base.mapping else base.elem
+            if not isinstance(base, DictVal):
+                i = self.ev(e.slice, fr) if not isinstance(e.slice, ast.Slice) else None
+                if isinstance(base, Tup) and isinstance(i, int) and not isinstance(i, bool) and -len(base) <= i < len(base):
+                    return base[i]
+                return TOP
+        if isinstance(e, (ast.GeneratorExp, ast.ListComp, ast.SetComp, ast.DictComp)):
+            # one representative round (as for `for` loops): does what the element expression does, once.  A
+            # comprehension that neither iterates something known nor does anything to entries stays unknown.
+            inner = _Frame(fr.fi, dict(fr.env), fr.depth)
+            inner.at = fr.at
+            mapping = isinstance(e, ast.DictComp)
+            for i, g in enumerate(e.generators):
+                itv = self.as_iterable(self.ev(g.iter, inner))
+                if i == 0 and not isinstance(itv, Seq) and not self.info.interesting_comprehension(fr.fi, e):
+                    return TOP
+                if not self.loop_enters(itv, g):
+                    return Seq(empty=True, mapping=mapping)
+                self.assign(g.target, self.iter_elem(itv), inner)
+                for c in g.ifs:
+                    if not self.truth(c, inner):
+                        return Seq(empty=True, mapping=mapping)
+            if mapping:
+                return Seq(Tup((self.ev(e.key, inner), self.ev(e.value, inner))), mapping=True)
+            return Seq(self.ev(e.elt, inner))
+        if isinstance(e, ast.Attribute):
+            base = self.ev(e.value, fr)
+            if e.attr == "cancel" and isinstance(base, Obj) and id(base) in self.handle_of:
+                self.cancelled.add(self.handle_of[id(base)])  # the bound method taken as a value (handed to somebody to call)
+                return TOP
+            if isinstance(base, Unk):
+                # an attribute of an unknown object is as unknown, but reading it twice yields the same thing
+                # (`(request.remote, request.token)` is one key wherever it is spelled out)
+                if e.attr not in base.attrs:
+                    base.attrs[e.attr] = Unk("%s.%s" % (base.tag, e.attr))
+                return base.attrs[e.attr]
+            if isinstance(base, Obj):
+                return base.attrs.get(e.attr, TOP)
+            if base is TOP and e.attr in self.consts:
+                return self.consts[e.attr]
+            return TOP
+        if isinstance(e, ast.Starred):
+            return self.ev(e.value, fr)
+        return Machine.ev(self, e, fr)
+
+    def call(self, e, fr):
+        self._callstack.append(e)
+        try:
+            f = e.func
+            if isinstance(f, ast.Attribute) and f.attr == "cancel" and not e.args:
+                recv = self.ev(f.value, fr)
+                if isinstance(recv, Obj) and id(recv) in self.handle_of:
+                    self.cancelled.add(self.handle_of[id(recv)])
+                    return None
+                if isinstance(recv, Seq):
+                    return None
+                self.effect("call", "cancel", recv, [])
+                return None
+            if isinstance(f, ast.Attribute) and chain(f.value) is not None and f.attr in ("keys", "values", "items", "copy") and not e.args:
+                recv = self.ev(f.value, fr)
+                if isinstance(recv, Seq) and recv.mapping:
+                    if recv.empty or f.attr in ("items", "copy"):
+                        return Seq(recv.elem, recv.empty, mapping=(f.attr == "copy"))
+                    return Seq(recv.elem[0] if f.attr == "keys" else recv.elem[1])
+            if isinstance(f, ast.Name) and f.id not in fr.env:
+                if f.id in ("list", "tuple", "sorted", "set", "frozenset", "iter", "reversed") and len(e.args) == 1:
+                    v = self.as_iterable(self.ev(e.args[0], fr))
+                    for k in e.keywords:
+                        self.ev(k.value, fr)
+                    return v if isinstance(v, Seq) else TOP
+                if f.id == "dict" and len(e.args) == 1 and not e.keywords:
+                    v = self.ev(e.args[0], fr)
+                    if isinstance(v, TimerTable):
+                        return self._view(v, "copy")
+                    if isinstance(v, Seq):
+                        return Seq(v.elem, v.empty, mapping=True)
+                    return TOP
+                if f.id == "next" and e.args:
+                    v = self.ev(e.args[0], fr)
+                    dflt = [self.ev(x, fr) for x in e.args[1:]]
+                    if isinstance(v, Seq):
+                        if not v.empty:
+                            return v.elem
+                        if dflt:
+                            return dflt[0]
+                        raise Raised("StopIteration")
+                    return TOP
+                target, _ = resolve_callee(self.prog, fr.fi, e)
+                if target is not None and target.parent is fr.fi and fr.depth < self.max_depth and not target.is_async and not _is_generator(target):
+                    # a helper defined inside the running function: its free variables are the caller's locals
+                    argv = [TOP if isinstance(x, ast.Starred) else self.ev(x, fr) for x in e.args]
+                    kwv = {k.arg: self.ev(k.value, fr) for k in e.keywords if k.arg}
+                    return self.enter(target, argv, kwv, fr.depth + 1, closure=fr.env)
+            return Machine.call(self, e, fr)
+        finally:
+            self._callstack.pop()
+
+    def enter(self, fi, argv, kwv, depth, closure=None):
+        if closure is None:
+            return Machine.enter(self, fi, argv, kwv, depth)
+        # same binding rules as Machine.enter, on top of the enclosing frame's variables
+        self._closure = closure
+        return Machine.enter(self, fi, argv, kwv, depth)
+
+    def _havoc(self, argv):
+        Machine._havoc(self, argv)
+        for v in argv:
+            if isinstance(v, Unk):
+                # what the callee may have changed is forgotten; what was unknown anyway keeps its identity
+                for k in [k for k, x in v.attrs.items() if not isinstance(x, Unk)]:
+                    del v.attrs[k]
+
+    # -- control ---------------------------------------------------------------------------
+    def decide(self, what):
+        if self.n_dec >= len(self.oracle) and what != "%s has the key" % self.info.field and self.frames:
+            if not any(self.info.relevant_ahead(fr.fi, fr.at) for fr in self.frames if fr.at is not None):
+                raise Quiescent()
+        return Machine.decide(self, what)
+
+    _closure = None
+
+    def run_frame(self, fr):
+        if self._closure is not None:
+            env = dict(self._closure)
+            env.update(fr.env)
+            fr.env = env
+            self._closure = None
+        for k, v in list(fr.env.items()):
+            if v is TOP:
+                fr.env[k] = self._fresh(k)  # an argument nothing is known about is still one object throughout the call
+        self.frames.append(fr)
+        try:
+            r = Machine.run_frame(self, fr)
+            if len(self.frames) == 1:
+                self.returned = r
+            return r
+        finally:
+            self.frames.pop()
+
+    def run(self, fi, env):
+        try:
+            Machine.run(self, fi, env)
+        except Quiescent:
+            self.outcome = "return"
+
+    # -- verdict ----------------------------------------------------------------------------------
+    def _contains(self, v, n, depth=0):
+        if depth > 4:
+            return False
+        if isinstance(v, Obj):
+            return self.handle_of.get(id(v)) == n
+        if isinstance(v, (Tup, tuple, list)):
+            return any(self._contains(x, n, depth + 1) for x in v)
+        if isinstance(v, Seq):
+            return self._contains(v.elem, n, depth + 1)
+        return False
+
+    def loose(self):
+        """[(entry number, how, site, call node, fate)] of the entries this run took out of the table without
+        cancelling their handle; fate: 'dropped', 'returned' (handed to the caller), 'escaped' (handed to code
+        the interpreter cannot look into, or stored elsewhere)"""
+        out = []
+        for n, how, site, node in self.taken:
+            if n in self.cancelled:
+                continue
+            fate = "dropped"
+            if self._contains(self.returned, n):
+                fate = "returned"
+            for t in self.trace:
+                if t[0] in ("call", "setattr", "setitem") and self._contains(t[3], n):
+                    fate = "escaped"
+                elif t[0] in ("table-store", "queue", "send", "exchange") and self._contains(t[2], n):
+                    fate = "escaped"
+            out.append((n, how, site, node, fate))
+        return out
